@@ -4,6 +4,7 @@ CONSTANTS
   Small = FALSE
 INVARIANT AllWF
 INVARIANT UnmentionedIsNoLayer
+INVARIANT LayerLawsCopyAgrees
 INVARIANT LDecomp
 INVARIANT LNegation
 INVARIANT SingletonLayersAreModuleRules
